@@ -210,6 +210,17 @@ func (fc *FnCtx) assign(st *State, lhs ast.Expr, v Val) {
 			st.assume(not(eq(m.T, "0")))
 			v = fc.convertAssign(st, v, u.Elem())
 			fc.ownershipCheck(st, l, m, k, "store")
+			if r := fc.root(); r.ct != nil && len(r.ct.StorePre) > 0 {
+				if se, ok := ast.Unparen(l.X).(*ast.SelectorExpr); ok {
+					dk, ds, _, _ := fc.mapKeys(u)
+					present := Val{sel(sel(fc.comp(st, dk, ds), m.T), k.T), types.Typ[types.Bool]}
+					for i, cl := range r.ct.StorePre[se.Sel.Name] {
+						env := &SpecEnv{fc: r, st: st, old: r.entry, scope: map[string]Val{"$key": k, "$map": m, "$present": present, "$value": v}, oldScope: r.paramsEntry, pkg: r.ctPkg(), useVars: true}
+						g := r.safeSpec(env, cl.E, cl.Text)
+						fc.assertNamed(st, "own", "store."+se.Sel.Name+"."+clauseName(cl, i), g.T, "whenever an entry of "+se.Sel.Name+" is stored: "+cl.Text, l.Pos())
+					}
+				}
+			}
 			fc.mapStore(st, m, k, v.T)
 		case *types.Array:
 			a := fc.eval(st, l.X)
